@@ -371,6 +371,18 @@ def rule_ambient_py(ctx, px):
     ctx.floor(R, n, 18)
 
 
+def _tree_walk_recursion(f, node) -> bool:
+    """`for child in <nested namespaces>: yield from <this very generator>(child, ...)` inside a method of Namespace and nothing else
+    in the loop: the order decides the order in which files are visited, never what a file contains."""
+    if not isinstance(node, ast.For) or f.cls is None or f.cls.name != "Namespace" or node.orelse:
+        return False
+    if len(node.body) != 1 or not isinstance(node.body[0], ast.Expr) or not isinstance(node.body[0].value, ast.YieldFrom):
+        return False
+    c = node.body[0].value.value
+    return isinstance(c, ast.Call) and isinstance(c.func, ast.Attribute) and isinstance(c.func.value, ast.Name) and c.func.value.id in ("self", "cls") \
+        and c.func.attr == f.name and bool(c.args) and isinstance(node.target, ast.Name) and ast.unparse(c.args[0]) == node.target.id
+
+
 def _unique_language_match(px, reason):
     """The hash-ordered list of non-target languages is harmless only while a language-bound callable can match *one*
     language: handle_conventional_methods takes the first language that matches and the order of that list is the set order.
@@ -474,12 +486,6 @@ def rule_order(ctx, px, ts):
             "list is returned through sorted() when sort is true - checked below as its own obligation",
         ("Namespace._bfs_search_for_output_path", "_._nested_namespaces"):
             "search for the unique namespace holding the type; result independent of visiting order (one owner per type: R-C11)",
-        ("Namespace._recursive_data_type_generator", "_.get_nested_namespaces()"):
-            "processing order of files only; per-file content is order independent (R-C10)",
-        ("Namespace._recursive_namespace_generator", "_.get_nested_namespaces()"):
-            "processing order of files only (R-C10)",
-        ("Namespace._recursive_data_type_and_namespace_generator", "_.get_nested_namespaces()"):
-            "processing order of files only (R-C10)",
         ("build_namespace_tree", "_"):
             "order of linking parents and children; the links form sets, result is order independent",
         ("DSDLTemplateLoader.get_templates", "_"): "returned through sorted()",
@@ -528,6 +534,9 @@ def rule_order(ctx, px, ts):
                 construct = f"{f.short} iterates {coll_key(it)}"
                 if wrapped:
                     ctx.ob(R, f.module.rel, construct, True, "order erased by sorted()/set()/aggregate", node.lineno)
+                elif _tree_walk_recursion(f, node):
+                    ctx.ob(R, f.module.rel, construct, True, "recursion of a tree-walk generator (the loop body only yields from the generator's own call on the "
+                           "nested namespace): processing order of files only; per-file content is order independent (R-C10)", node.lineno)
                 elif key in ACCEPT:
                     okj, whyj = True, ACCEPT[key]
                     if key[0] == "LanguageContextBuilder._new_language_map":
